@@ -204,7 +204,11 @@ class World:
         space.write(self.no_component, {})
         head = None
         if self.schema_level:
-            head = "<import package='%s'/>" % self.schema_level[0]
+            # (the default file name is spelled out half of the time: the
+            # same component)
+            head = "<import package='%s'%s/>" % (
+                self.schema_level[0],
+                " file='component.xml'" if rng.random() < 0.5 else "")
         # now and then the abstract types and the holder type (a section
         # type with an abstract slot) live in a library schema that the
         # application schema imports by reference; the implementers are
